@@ -381,6 +381,11 @@ def run_case(concepts, case, spec):
     if n <= 400:                        # the lattice itself / its atoms as the seed collection
         call(list, lat.upset_union(lat))
         call(list, lat.downset_union(lat))
+        for _ in range(3):      # iterating the seeds runs traversals / joins on the same lattice
+            ms = [members[rng.randrange(n)] for _ in range(rng.randint(1, 4))]
+            call(list, lat.upset_union(common.reentrant_concepts(ms, lat)))
+            call(list, lat.downset_union(common.reentrant_concepts(ms, lat)))
+        COL.count('reentrant_argument_collections')
         call(list, lat.upset_union(lat.atoms))
         call(list, lat.downset_union(lat.atoms))
     if len(ctx.objects) <= 12 and len(ctx.properties) <= 12 and n <= 200:
